@@ -68,6 +68,9 @@ def gen_case(tape, tier):
         "max_plans": 40 if tier == "quick" else 120,
         # the program that uses pipefunc is itself a multiprocessing child (parent_process() is not None)
         "as_mp_child": bool(tape.coin(0.12, "as-mp-child")),
+        # the pipeline object in use is not the one that was constructed: it went through cloudpickle (loaded from a
+        # file, sent over) or copy.deepcopy first
+        "roundtrip": tape.pick([None, None, None, "cloudpickle", "deepcopy"], "pipeline-roundtrip"),
     }
     if kind in ("call", "run") and tape.coin(0.25, "uncopyable-arg"):
         roots = sorted(root_kwargs(w, output))
@@ -176,6 +179,14 @@ def run_plan(w, cfg, faults, ref, tape, gens, then=None):
         try:
             with sim:
                 p = build_pipeline(w)
+                if cfg.get("roundtrip") == "cloudpickle":
+                    import cloudpickle
+
+                    p = cloudpickle.loads(cloudpickle.dumps(p))
+                    info["probes"]["pipeline_roundtrip"] = 1
+                elif cfg.get("roundtrip") == "deepcopy":
+                    p = copy.deepcopy(p)
+                    info["probes"]["pipeline_roundtrip"] = 1
                 k = sim.kernel
 
                 def main():
@@ -320,9 +331,12 @@ def run_plan(w, cfg, faults, ref, tape, gens, then=None):
                         return
                     fd = next(x for x in w["functions"] if x["name"] == f2.fn)
                     out = fd["outputs"][0] if len(fd["outputs"]) == 1 else tuple(fd["outputs"])
-                    snap = p[out].error_snapshot
+                    snap = _snap_of(p[out])
                     same_fn = all(f.fn == f2.fn for f in fobjs)
                     tag = "same-function" if same_fn else "other-function"
+                    if isinstance(snap, _Raised):
+                        V("snapshot", f"function-snapshot-raised:{type(snap.e).__name__}", repr(snap.e)[:300])
+                        return
                     if snap is None:
                         V("snapshot", f"second-failure-snapshot-missing:{tag}", {"fn": f2.fn})
                         return
@@ -333,7 +347,10 @@ def run_plan(w, cfg, faults, ref, tape, gens, then=None):
                           {"fn": f2.fn, "snapshot_kwargs": repr(got_kw)[:300], "snapshot_exception": repr(_exc_id(snap.exception)),
                            "second_failure": [repr(c) for c in raised2][:2]})
                         return
-                    ps = p.error_snapshot
+                    ps = _snap_of(p)
+                    if isinstance(ps, _Raised):
+                        V("snapshot", f"pipeline-snapshot-raised:{type(ps.e).__name__}", repr(ps.e)[:300])
+                        return
                     outer3 = getattr(ps.function, "outer", {}) if ps is not None else {}
                     if ps is None or _exc_id(ps.exception) != planned2 or \
                             {outer3.get(k2, k2): canon(v2) for k2, v2 in ps.kwargs.items()} not in [dict(c.args) for c in raised2]:
@@ -381,17 +398,37 @@ def _kind_of(fobjs, call):
     return fobjs[0].exc_kind
 
 
+class _Raised:
+    def __init__(self, e):
+        self.e = e
+
+
+def _snap_of(obj):
+    """obj.error_snapshot, or a _Raised marker if reading the attribute raises (the API must expose it)."""
+    try:
+        return obj.error_snapshot
+    except Exception as e:  # noqa: BLE001
+        return _Raised(e)
+
+
 def _check_snapshot(p, w, fired, err, root, V, raised_calls):
     from pipefunc._pipefunc import ErrorSnapshot
 
     planned = [_exc_id(make_exc(f.exc_kind)) for f in fired]
-    if p.error_snapshot is None:
+    ps0 = _snap_of(p)
+    if isinstance(ps0, _Raised):
+        V("snapshot", f"pipeline-snapshot-raised:{type(ps0.e).__name__}", repr(ps0.e)[:300])
+        return
+    if ps0 is None:
         V("snapshot", "pipeline-snapshot-missing")
         return
     for f in fired:
         fd = next(x for x in w["functions"] if x["name"] == f.fn)
         out = fd["outputs"][0] if len(fd["outputs"]) == 1 else tuple(fd["outputs"])
-        snap = p[out].error_snapshot
+        snap = _snap_of(p[out])
+        if isinstance(snap, _Raised):
+            V("snapshot", f"function-snapshot-raised:{type(snap.e).__name__}", repr(snap.e)[:300])
+            return
         if snap is None:
             V("snapshot", "function-snapshot-missing", {"fn": f.fn})
             return
@@ -424,7 +461,7 @@ def _check_snapshot(p, w, fired, err, root, V, raised_calls):
             else:
                 V("snapshot", f"reproduce-{label}-did-not-raise", {"fn": f.fn})
                 return
-    ps = p.error_snapshot
+    ps = ps0
     try:
         ps.reproduce()
     except Exception as e:  # noqa: BLE001
